@@ -1,6 +1,7 @@
 SPECIFICATION OpsSpec
 CONSTANTS
   Tier = "full"
+  EnvDefects = {}
   Pools <- MC_Pools
   MaxLen = 5
   MaxWire = 2
